@@ -88,6 +88,7 @@ def check(prog, rep, tier):
     rep.rule("C08.cbf-noop-exits", "remove returns without a store exactly when the minimum is 0 or at the limit", floor=1)
     rep.rule("C08.cc-weights", "a bin inserted for a key carries the caller's count; a kicked bin keeps its own fingerprint and count", floor=1)
     rep.rule("C08.cc-add-present", "add on a present key increments that key's bin (and nothing else)", floor=1)
+    rep.rule("C08.cc-bin-identity", "a counting bin matches a value exactly when the value is its fingerprint (the count cell takes no part)", floor=1)
     rep.rule("C08.cc-check", "check reports the count of the one bin holding the key's fingerprint (each candidate bucket visited once), 0 when absent", floor=1)
     rep.rule("C08.cc-remove", "remove decrements, drops the bin exactly at zero, and says False without mutation when absent", floor=1)
     rep.assume("hash-strategy contract: len(hashes(key)) == number_hashes")
@@ -326,6 +327,24 @@ def check(prog, rep, tier):
         rep.ok("C08.cc-add-present", f"{CC}.add: present -> bin.increment()")
     elif oka:
         rep.bad("C08.cc-add-present", f"{CC}.add", "no increment", "add never increments an existing bin", add.where())
+    # what "the bin holding the fingerprint" means: a bin matches a value exactly when the value is its fingerprint
+    binf = ("f", SELF, BINF, 0)
+    fing = ("sub", binf, C(0), 0)
+    cb = prog.method("CountingCuckooBin", "__contains__")
+    okbin, nb = True, 0
+    for p in paths(prog, "CountingCuckooBin", cb, inline="deep"):
+        if p.exit[0] != "return":
+            continue
+        nb += 1
+        rv = strip_epochs(p.exit[1])
+        val = ("p", cb.params[-1])
+        if rv not in (("cmp", "==", fing, val), ("cmp", "==", val, fing)):
+            rep.bad("C08.cc-bin-identity", "CountingCuckooBin.__contains__", f"returns {nshow(rv)}",
+                    f"a bin answers `value in bin` with {nshow(rv)}, not with fingerprint == value: a value that equals the bin's COUNT matches too, so add / check / remove "
+                    "of a key act on another key's bin", cb.where())
+            okbin = False
+    if okbin and nb:
+        rep.ok("C08.cc-bin-identity", "CountingCuckooBin.__contains__: fingerprint == value")
     # check: the count of the bin that holds the key's fingerprint, 0 when absent
     ck = prog.method(CC, "check")
     okc, nck = True, 0
@@ -403,6 +422,8 @@ MUTANTS = [
     Mutant("remove_alt subtracts num_els regardless of the minimum", _CB, replace_stmt("CountingBloomFilter", "remove_alt", "to_remove = ", "to_remove = num_els"), rule="C08.cbf-symmetry"),
     Mutant("check_alt mod bloom_length - 1", _CB, replace_expr("CountingBloomFilter", "check_alt", "x % self.number_bits", "x % (self.number_bits - 1)"), rule="C08.cbf-address"),
     Mutant("_load_init: bloom_length = n_bits + 1", _CB, replace_stmt("CountingBloomFilter", "_load_init", "self._bloom_length = n_bits", "self._bloom_length = n_bits + 1"), rule="C08.cbf-length"),
+    Mutant("bin membership looks at both cells", _CC, replace_expr("CountingCuckooBin", "__contains__", "self.__bin[0] == val", "val in self.__bin"), rule="C08.cc-bin-identity"),
+    Mutant("bin membership through the finger property (same meaning)", _CC, replace_expr("CountingCuckooBin", "__contains__", "self.__bin[0] == val", "self.finger == val"), expect="silent"),
     Mutant("check reports count + 1", _CC, replace_stmt("CountingCuckooFilter", "check", "val = bucket.count", "val = bucket.count + 1"), rule="C08.cc-check"),
     Mutant("check sums over the candidate tuple", _CC, replace_stmt("CountingCuckooFilter", "check", "is_present = ", "return sum(x.count for idx in (idx_1, idx_2) for x in self.buckets[idx] if fingerprint in x)"), rule="C08.cc-check"),
     Mutant("check sums over the candidate set (same meaning)", _CC, replace_stmt("CountingCuckooFilter", "check", "is_present = ", "return sum(x.count for idx in {idx_1, idx_2} for x in self.buckets[idx] if fingerprint in x)"), expect="silent"),
